@@ -14,7 +14,7 @@ def run(ctx) -> None:
     ctx.rule("a.partition", "the partition loop covers range(len(self)), keys are the row's values of ALL key columns in order (None "
                             "not special-cased), a new key starts [row], a repeated key appends the row; groups are the insertion-"
                             "ordered items, never sorted / passed through a set", 1)
-    ctx.rule("b.key-columns", "key columns come first, one value per group in group order, named uniquify(name or 'key')", 1)
+    ctx.rule("b.key-columns", "key columns come first, one value per group in group order, named uniquify(stored name; 'key' only for an unnamed column - '' is a name)", 1)
     ctx.rule("c.aggregators", "each built-in aggregate: parameter <-> loop <-> function facts <-> suffix; filter None; textbook reducer; "
                               "empty group -> 0 (sum, count) / None; stdev: at least 2 values, divisor n-1", 6)
     ctx.rule("d.group-values", "each aggregate function is called exactly once per group on that group's values gathered in row order", 1)
